@@ -5,7 +5,21 @@ from diff import Case
 from gen import *
 
 THEOREMS = ["C18_eth_for_is_from_ip", "C18_raw_is_skip14", "C18_tcp_segments", "C18_udp", "C18_udp_options_keep",
-            "C18_icmp", "C18_ipdgram", "C18_gre", "C18_frame_wire_order", "C18_frame_rejects_bad_address"]
+            "C18_icmp", "C18_ipdgram", "C18_gre", "C18_frame_wire_order", "C18_frame_rejects_bad_address",
+            # library level: all 27 packet-returning keys, the raw relation for twin objects over any history and whole
+            # call sequences, tunnels at any depth, eth::frame / eth::from_ip through exec, binder and call (Props/C18b.v)
+            "C18b_vocabulary", "C18b_relations", "C18b_object_defs",
+            "C18b_pkt_keys", "C18b_eth_plan_defs", "C18b_lib_all_keys",
+            "C18b_lib_all_keys_ip", "C18b_raw_relation", "C18b_method_twin",
+            "C18b_method_plan_defs", "C18b_ctor_twin", "C18b_history_twin",
+            "C18b_unicast_twin", "C18b_broadcast_twin", "C18b_dns_host_twin",
+            "C18b_frag_twin", "C18b_fn_plans", "C18b_program_defs",
+            "C18b_program_twin", "C18b_layer_twin", "C18b_layer_raw_relation",
+            "C18b_nesting", "C18b_layer_defs", "C18b_frame_exec",
+            "C18b_frame_exec_rejects", "C18b_from_ip_exec", "C18b_frame_of_from_ip",
+            "C18b_frame_binder", "C18b_from_ip_binder", "C18b_frame_call"]
+PROPS = ["C18", "C18b"]
+VO = ["theories/Props/C18.vo", "theories/Props/C18b.vo"]
 RULE = ("for every IP-level builder (TCP flow, UDP flow/unicast/broadcast, ICMP flow, ipv4::datagram, fragments, dns::host, "
         "VXLAN/GRE/ERSPAN sessions) a program and its variant with raw: true on the builder (relational pair), over "
         "boundary and random address pairs and payloads; plus eth::frame with random 6-byte addresses/ethertypes and "
